@@ -148,5 +148,6 @@ def build(tier, seed):
     for mname in MODELS:
         if 'C04' in MODELS[mname].get('skip', ()):
             continue
-        obs += history_obs(mname, 4 if thorough else 3, 1800 if thorough else 900)
+        # the typed model forks on the type of every written value as well: length 3 in both tiers (length 4 does not finish)
+        obs += history_obs(mname, 4 if thorough and not MODELS[mname].get('typed') else 3, 1800 if thorough else 900)
     return obs
